@@ -428,10 +428,10 @@ func main() {
 	}
 	type loc struct {
 		g     *gg.Gen
-		reset func()
+		reset func(int)
 	}
 	newLocal := func(int) interface{} {
-		next, reset := gg.Cyclic(ffin)
+		next, reset := gg.CyclicAt(ffin)
 		return &loc{&gg.Gen{K: 3, M: 2, Depth: 3, NilSlice: true, Next: next}, reset}
 	}
 	nt := func(c *mc.Ctx, g orb.Geometry) {
@@ -443,7 +443,7 @@ func main() {
 	}
 	r.Explore("geometry-noncollection", "full product of the 8 non-collection kinds (k=3,m=2)", mc.Opts{MaxDev: -1, Split: 3, NewLocal: newLocal}, func(c *mc.Ctx) {
 		l := c.Local().(*loc)
-		l.reset()
+		l.reset(c.Choose(len(ffin) / 2))
 		g := l.g.Kind(c, c.Choose(gg.KCollection), 0, true)
 		checkGeometry(c, g)
 		nt(c, g)
@@ -451,7 +451,7 @@ func main() {
 	dev := ev.Pick(r, 8, 9)
 	r.Explore("geometry-collections", fmt.Sprintf("collections nested to depth 3 within %d deviations", dev), mc.Opts{MaxDev: dev, Split: 3, NewLocal: newLocal}, func(c *mc.Ctx) {
 		l := c.Local().(*loc)
-		l.reset()
+		l.reset(c.Choose(len(ffin) / 2))
 		g := l.g.Kind(c, gg.KCollection, 0, true)
 		checkGeometry(c, g)
 		nt(c, g)
